@@ -9,7 +9,8 @@ from .common import Ctx
 
 THEOREMS = {
     "C07": ["C07_deadline_armed_at_call", "C07_deadline_wakes_caller", "C07_wake_answers", "C07_send_limit_is_sources", "C07_cap_is_20_seconds",
-            "C07_result_belongs", "C07_result_belongs_nonvacuous", "C07_foreign_packet_ignored", "C07_own_null_entry_answers"],
+            "C07_result_belongs", "C07_result_belongs_nonvacuous", "C07_foreign_packet_ignored", "C07_own_null_entry_answers",
+            "C07_at_rest_all_answered", "C07_all_answered_nonvacuous"],
     "C08": ["C08_tx_count_le_limit", "C08_limit_formula", "C08_backoff_delay_bound", "C08_retry_ladder", "C08_backoff_across_commands", "C08_tx_after_answer_refuted", "C08_caps_as_stated",
             "C08_queue_ordered", "C08_next_is_least_pending", "C08_priority_then_arrival_witness",
             "C08_one_in_flight", "C08_current_is_holder", "C08_one_in_flight_nonvacuous", "C08_slot_changes_hands"],
